@@ -93,4 +93,14 @@ def blockArgs : List (Arg V W) → List (List V × List W) → List (Arg V W)
 /-- arithmetic mean of a list of rationals (`mean` over one ensemble axis) -/
 def meanList (l : List Rat) : Rat := l.foldl (· + ·) 0 / (l.length : Rat)
 
+/-- composed ensemble transforms (`Probe._calculate_array`): every transform prepends its ensemble axes to those present -/
+def applyAll {α : Type} (base : List α) (ts : List (List α)) : List α := ts.foldl (fun acc t => t ++ acc) base
+
+/-- axes of a built probe: the array gets them in the order the transforms are applied, the metadata lists them in the
+order the builder names its ensembles; a mismatch of the sizes is the RuntimeError of the array-object constructor -/
+def composeAxes (named applied : List (String × Nat)) : Except String (List Nat × List String) :=
+  let arr := applyAll [] (applied.map fun t => if t.2 = 0 then [] else [t.2])
+  let listed := (named.filter fun t => t.2 ≠ 0)
+  if arr = listed.map (·.2) then .ok (arr, listed.map (·.1)) else .error "runtime_error"
+
 end AbtemVerif.ParamEnsemble
